@@ -32,6 +32,7 @@ public:
 
     [[nodiscard]] bool empty() const { return elements.empty(); }
     [[nodiscard]] std::size_t size() const { return elements.size(); }
+    [[nodiscard]] bool hasOpenScope() const { return not limits.empty(); }
 
     [[nodiscard]] T * data() { return elements.data(); }
     [[nodiscard]] T const * data() const { return elements.data(); }
